@@ -3,6 +3,26 @@ import json, os
 import obligations
 
 
+def mechanical_scan(verif):
+    """cheap scan of the contract sources for everything that is an assumption rather than a proof"""
+    import re, glob
+    out = {"assume_sites": 0, "stubs": {}, "unsafe_blocks_in_contracts": 0, "files": 0}
+    for f in sorted(glob.glob(os.path.join(verif, "contracts", "*.rs"))) + [os.path.join(verif, "tools", "gen_instances.py")]:
+        t = open(f).read()
+        out["files"] += 1
+        out["assume_sites"] += len(re.findall(r"\bnd::assume\(|\bkani::assume\(", t))
+        out["unsafe_blocks_in_contracts"] += len(re.findall(r"\bunsafe\s*\{", t))
+        for m in re.finditer(r"kani::stub\(([^,]+),\s*([^)]+)\)", t):
+            k = m.group(1).strip()
+            out["stubs"].setdefault(k, set()).add(m.group(2).strip())
+    out["stubs"] = {k: sorted(v) for k, v in sorted(out["stubs"].items())}
+    out["note"] = ("assume sites are harness preconditions (WF clauses, type validity) -- each harness states them in its doc comment; "
+                   "stubs of engine functions are abstract callees whose contracts have their own obligations; stubs of std functions "
+                   "(Duration::*, String::push*, Backtrace::capture, alloc::fmt::format) are assumed dependency contracts (DESIGN.md A4); "
+                   "unsafe blocks in contracts touch only ghost statics / build &str from ASCII bytes / set ArrayVec lengths in constructors")
+    return out
+
+
 def write(verif, prop, tier, seed, obs, total_instances, results, violations, known_hits, slices_meta, wall):
     meta = obligations.PROPS[prop]
     harnesses = []
@@ -71,6 +91,7 @@ def write(verif, prop, tier, seed, obs, total_instances, results, violations, kn
         "known_findings_masked": [{"obligation": o["name"], "check": f["desc"], "finding": k["text"]} for o, k, f in known_hits],
         "undecided": [h["obligation"] for h in harnesses if h["status"] == "undecided"],
         "not_machine_checked": meta.get("not_machine_checked", []),
+        "mechanical_scan_of_contracts": mechanical_scan(verif),
     }
     doc = {
         "property_id": prop, "tier": tier, "seed": seed, "level": level, "coverage": cov,
